@@ -159,8 +159,12 @@ def run_size(case):
     for k, i, v in ops:
         if k == "w":
             tbl.columns[i].width = v
-        else:
+        elif k == "h":
             tbl.rows[i].height = v
+        elif k == "W":
+            gf.width = v          # the caller resizes the frame: it no longer equals the sum ...
+        else:
+            gf.height = v
         if gf.width != sum(c.width for c in tbl.columns) and k == "w":
             fails.append(("frame-width", f"frame width {gf.width} != sum of column widths"))
         if gf.height != sum(r.height for r in tbl.rows) and k == "h":
@@ -254,8 +258,9 @@ def correspond(ctx):
             for _ in range(2 if ctx.quick else 12):
                 w = rng.choice([0, 1, 7, 100, 914400, 9144000, 1234567]) + rng.randint(0, 50)
                 h = rng.choice([0, 1, 5, 370840, 999999]) + rng.randint(0, 50)
-                ops = [(rng.choice("wh"), 0, rng.randint(0, 100000)) for _ in range(rng.randint(0, 3))]
-                ops = [(k, rng.randrange(cols if k == "w" else rows), v) for k, _, v in ops]
+                # ... until the next column-width / row-height assignment, which must make it the sum again
+                ops = [(rng.choice("wwhhWH"), 0, rng.randint(0, 100000)) for _ in range(rng.randint(0, 4))]
+                ops = [(k, rng.randrange(cols if k in "wW" else rows), v) for k, _, v in ops]
                 items.append(("size", (rows, cols, w, h, ops)))
                 ctx.count("size")
 
